@@ -122,10 +122,11 @@ def rule_align_guard(u, rep):
                 store_idx = i
         guard = None
         for c in p.conds:
-            if c[0] in ("true", "false"):
+            if c[0] in ("true", "false", "eq", "else"):
                 r = norm_cond(c)
-                if r[0] != "opaque" and is_addr_mod_unit(r[0], T) and r[2] == C(0):
-                    guard = (r[1], c[3] if len(c) > 3 else None)
+                if r[0] != "opaque" and r[1] in ("Eq", "Ne") and is_addr_mod_unit(r[0], T) and r[2] == C(0):
+                    # (`match rem { 0 => .., _ => .. }` carries no event index: the order test below is then left out)
+                    guard = (r[1], c[3] if (c[0] in ("true", "false") and len(c) > 3) else None)
         if out[0] == "ok":
             n_ok += 1
             ok = guard is not None and guard[0] == "Eq"
@@ -167,7 +168,8 @@ def rule_load_mem_precheck(u, rep):
             out = outcome_of(u, p)
             if out[0] == "err" and "AlignmentError" in (out[1] + str(out[2])):
                 rows = [norm_cond(c) for c in p.conds]
-                if len(rows) == 1 and rows[0][0] != "opaque" and rows[0][1] in ("Gt",) and isinstance(rows[0][0], tuple) and rows[0][0][0] == "alignof":
+                is_al = lambda v: isinstance(v, tuple) and bool(v) and v[0] == "alignof"
+                if len(rows) == 1 and rows[0][0] != "opaque" and ((rows[0][1] == "Gt" and is_al(rows[0][0])) or (rows[0][1] == "Lt" and is_al(rows[0][2]))):
                     pre = [e for e in p.events if e[0] == "Call" and e[1] == "std"]
                     if not pre:
                         ok = True
